@@ -26,6 +26,9 @@ Line ==
   /\ CASE e.k = "reset" -> TRUE
        [] e.k = "end" -> e.status = "ok"
        [] e.k = "bq" -> CountsOK(e)
+       \* connection storm on a PAIR socket: never two peers at once, none left when all have gone, and the socket
+       \* kept admitting (one per round: refusing the others did not disturb it)
+       [] e.k = "bconn" -> e.most <= 1 /\ e.live = 0 /\ e.admitted = e.rounds
        [] OTHER -> FALSE
 TSpec == TInit /\ [][Line]_l
 TConstraint == Progress(l)
